@@ -88,6 +88,7 @@ class Out:
         self.identities = 0     # identities re-checked with unbounded integers
         self.cond_used = 0
         self.max_ratio = 0.0
+        self.worst = None
 
 
 TREE_ORDER = ("F", "d1", "d2", "d3", "g1", "g2", "g3")
@@ -178,16 +179,18 @@ def spec_checks(out: Out, inst, env, pts, vals, pidx, symbolic_env=None):
     return direction
 
 
-def _cmp(out: Out, inst, key_base, what, obs, tree, tenv, names, case, via=None):
+def _cmp(out: Out, inst, key_base, what, obs, tree, tenv, var, case, route=None):
     """Compare one float observation with a spec tree."""
-    j = rtx.judge(obs, tree, tenv, names, via=via)
+    j = rtx.judge(obs, tree, tenv, var, route)
     if j is None:
         out.mach.append(f"{key_base}: spec tree singular for {case}")
         return
     ok, fexp, err, tol, ratio = j
     out.n += 1
     if ok:
-        out.max_ratio = max(out.max_ratio, ratio)
+        if ratio > out.max_ratio:
+            out.max_ratio = ratio
+            out.worst = {"what": what, "observed": float(obs), "expected": fexp, "err": err, "tol": tol}
         if err > 1e-3 * rtx.RTOL * abs(fexp):
             out.cond_used += 1
         return
@@ -270,11 +273,12 @@ def conformance(out: Out, inst, fenv, expo, xs, tier, tag, direction, endinfo=No
                     keyb = f"{pre}.{meth}{esfx}"
                     # methods computed through the other side of the map: derivatives of the inverse
                     # (x = inverse(r) first), and every derivative of the InverseRTransform wrapper
-                    via = None
+                    route = None
                     if var == "r" and meth != "inverse":
-                        via = ("r", trees["G"])
+                        alt = trees["a" + tname[-1]]         # D^n(G) from D^n(F), a tree in x, at x = G(r)
+                        route = ("via", trees["G"], alt, "x") if obj is tf else ("roundtrip", trees["G"], trees["F"], alt, "x")
                     elif var == "x" and meth != "transform" and obj is not tf:
-                        via = ("x", trees["F"])
+                        route = ("via", trees["F"], trees["b" + tname[-1]], "r")
                     # array input
                     got = []
                     bad = False
@@ -294,8 +298,8 @@ def conformance(out: Out, inst, fenv, expo, xs, tier, tag, direction, endinfo=No
                         for i, (p, o) in enumerate(zip(pts, got)):
                             out.keys.add((pre, meth, tag, i))
                             _cmp(out, inst, keyb, f"{pre}.{meth}({var}={p!r}) [array], params {fenv}, exponent {expo}, trim_inf={trim}",
-                                 o, tree, dict(tenv_p, **{var: rtx._mpf(p)}), names_p + [var],
-                                 dict(case0, method=meth, mode="array", point=float(p)), via)
+                                 o, tree, dict(tenv_p, **{var: rtx._mpf(p)}), var,
+                                 dict(case0, method=meth, mode="array", point=float(p)), route)
                     # NumPy scalar input (and Python float where the class documents it)
                     if scalars:
                         modes = [("numpy-scalar", np.float64)]
@@ -312,8 +316,8 @@ def conformance(out: Out, inst, fenv, expo, xs, tier, tag, direction, endinfo=No
                                     out.viol.append((f"{keyb}:{mname}:shape", f"{meth}({mname}) returned {a.size} values", dict(case0, method=meth, mode=mname, point=float(p))))
                                     break
                                 _cmp(out, inst, keyb, f"{pre}.{meth}({var}={p!r}) [{mname}], params {fenv}, exponent {expo}, trim_inf={trim}",
-                                     float(a[0]), tree, dict(tenv_p, **{var: rtx._mpf(p)}), names_p + [var],
-                                     dict(case0, method=meth, mode=mname, point=float(p)), via)
+                                     float(a[0]), tree, dict(tenv_p, **{var: rtx._mpf(p)}), var,
+                                     dict(case0, method=meth, mode=mname, point=float(p)), route)
         # monotone in the direction the specification derives
         if direction in (1, -1) and len(xs) > 1 and chunk >= len(xs):
             res, exc = rtx.call(tf.transform, xs.copy())
@@ -464,7 +468,7 @@ def check(rep: Report, tier: str, modelled) -> None:
     res, em, vals, ends = modelled
     _G.update(em=em, vals=vals, ends=ends, tier=tier)
     jobs = [(i.idx, p) for i in em.instances for p in range(1, len(i.params) + 1)]
-    nrand = 8 if tier == "quick" else 700
+    nrand = 8 if tier == "quick" else 250
     npts = 5 if tier == "quick" else 12
     rjobs = []
     for i in em.instances:
@@ -511,6 +515,8 @@ def check(rep: Report, tier: str, modelled) -> None:
     rep.set("float_observations", n)
     rep.set("conditioning_term_computed", sum(o.cond_used for o in outs))
     rep.set("max_err_over_tolerance_accepted", max([o.max_ratio for o in outs] + [0.0]))
+    worst = sorted((o for o in outs if o.worst), key=lambda o: -o.max_ratio)[:3]
+    rep.set("closest_accepted_observations", [dict(o.worst, ratio=o.max_ratio) for o in worst])
     rep.set("traces_validated_against_impl", n)
     rep.set("rule", "one case = one float observation of a library method (8 methods, domain, codomain, end points, "
                     "monotonicity; transform object or its InverseRTransform wrapper; array / NumPy scalar / Python float; "
@@ -683,6 +689,46 @@ def _m11(rt):
             rf = self._convert_inf(rf)
         return rf
     rt.BeckeRTransform.transform = bad
+
+
+@_mutant("Becke.deriv2 as printed in its docstring: 4R/(1 - x^3)")
+def _m12(rt):
+    def bad(self, x):
+        return 4 * self._R / (1 - x ** 3)
+    rt.BeckeRTransform.deriv2 = bad
+
+
+@_mutant("LinearInfinite.inverse divides by rmax instead of rmax - rmin (invisible when rmin = 0)")
+def _m13(rt):
+    def bad(self, r):
+        self.set_maximum_parameter_b(r)
+        return (r - self._rmin) / (self._rmax / self.b)
+    rt.LinearInfiniteRTransform.inverse = bad
+
+
+@_mutant("Exp.deriv2: one factor alpha missing (returns deriv)")
+def _m14(rt):
+    def bad(self, x):
+        return self.deriv(x)
+    rt.ExpRTransform.deriv2 = bad
+
+
+@_mutant("HandyMod.inverse: (size - 2^m + 1) -> (size - 2^m - 1)")
+def _m15(rt):
+    def bad(self, r):
+        two_m = 2 ** self._m
+        size_r = self._rmax - self._rmin
+        tmp_r = (r - self._rmin) * (size_r - two_m - 1) / ((r - self._rmin) * (size_r - two_m) + size_r)
+        return 2 * tmp_r ** (1 / self._m) - 1
+    rt.HandyModRTransform.inverse = bad
+
+
+@_mutant("InverseRTransform.deriv2: d1^3 -> d1^2")
+def _m16(rt):
+    def bad(self, r):
+        r = self._tfm.inverse(r)
+        return -self._tfm.deriv2(r) / self._d1(r) ** 2
+    rt.InverseRTransform.deriv2 = bad
 
 
 def selftest(tier: str) -> int:
